@@ -3,7 +3,12 @@
    new_position, back_pressure_status and the two length checks, plus the environment's operations on the
    same log (publication limit counter, is-connected flag, cleaning of the partition the log rotates into next).
    Definitions only. *)
-Require Import V.Base.MachineInt V.Generated.GenConsts V.Model.Descriptor V.Model.LogBase V.Model.LogDelta V.Model.Appender.
+Require Import V.Base.MachineInt.
+Require Import V.Generated.GenConsts.
+Require Import V.Model.Descriptor.
+Require Import V.Model.LogBase.
+Require Import V.Model.LogDelta.
+Require Import V.Model.Appender.
 Open Scope Z_scope.
 
 Inductive op :=
